@@ -851,6 +851,39 @@ fn driver_family(case: &Value) -> Value {
 
 /// family "parlib": the library's Runner::run_parallel with a logging connection builder (C17, known finding D10)
 fn parlib_family(_case: &Value) -> Value {
+    if let Some(thr) = _case.get("threshold").and_then(|t| t.as_u64()) {
+        // C15: a threshold set through the API applies to the files run by run_parallel as well
+        let line = _case["hash_line"].as_str().unwrap_or("");
+        let body_hashed = format!("query II\nselect 1\n----\n{line}\n");
+        let body_full = "query II\nselect 1\n----\n1 2\n3 4\n".to_string();
+        let tree = Tree::create(&json!([["h/one.slt", "file", body_hashed], ["h/two.slt", "file", body_hashed]]));
+        let treef = Tree::create(&json!([["f/one.slt", "file", body_full]]));
+        let shared = PAR_SHARED.get_or_init(|| Arc::new(Mutex::new(Shared::default()))).clone();
+        let mut out = serde_json::Map::new();
+        for (name, t, glob) in [("hashed_with_threshold", thr as usize, format!("{}h/*.slt", tree.prefix())),
+                                ("full_with_threshold", thr as usize, format!("{}f/*.slt", treef.prefix())),
+                                ("full_without_threshold", 0usize, format!("{}f/*.slt", treef.prefix())),
+                                ("hashed_without_threshold", 0usize, format!("{}h/*.slt", tree.prefix()))] {
+            {
+                let mut sh = shared.lock().unwrap();
+                sh.events.clear();
+                sh.answers.clear();
+                sh.calls = 0;
+                sh.default = Some(Ans::Rows { types: "II".to_string(), rows: vec![vec!["1".into(), "2".into()], vec!["3".into(), "4".into()]] });
+            }
+            set_current(Some(shared.clone()));
+            let mut runner = Runner::new(MockMaker::<DefaultColumnType>::new(shared.clone()));
+            if t > 0 {
+                runner.with_hash_threshold(t);
+            }
+            let res = catch_unwind(AssertUnwindSafe(|| runner.run_parallel(&glob, vec!["h".to_string()], par_builder, 2)));
+            drop(runner);
+            set_current(None);
+            out.insert(name.to_string(), json!(match res { Ok(Ok(())) => "pass".to_string(), Ok(Err(e)) => format!("fail: {e}").chars().take(300).collect(), Err(_) => "panic".to_string() }));
+        }
+        shared.lock().unwrap().default = None;
+        return Value::Object(out);
+    }
     let tree = Tree::create(&json!([
         ["p/a-b.slt", "file", "statement ok\nselect A\n"],
         ["p/a_b.slt", "file", "statement ok\nselect B\n"],
